@@ -430,7 +430,11 @@ RunPartial(name, data, st) ==
   IF Bad(r) THEN [NoUnk(r) EXCEPT !.st = Pop(r.st)] ELSE
   LET ps == Pieces(Chunks(r.out)) IN
   IF HasPerm(ps) THEN Unspec(Pop(r.st)) ELSE
-  LET text == PieceChars(ps)
+  LET ctv  == Find(r.st, "contentType")
+      js   == ctv.found /\ ctv.v.t = "str" /\ Contains(ctv.v.s, <<"j","a","v","a","s","c","r","i","p","t">>)
+                /\ ExtOf(name) \notin {<<>>, <<".", "j", "s">>}
+      \* inside a javascript response the text of a non-.js partial is escaped for a JS string
+      text == IF js THEN JsEscapeChars(PieceChars(ps)) ELSE PieceChars(ps)
       \* the child scope stays in place while the layout renders (it is rendered from inside)
       lay == IF "layout" \in DOMAIN data THEN data["layout"] ELSE Nil IN
   IF lay.t = "str" THEN
